@@ -100,8 +100,8 @@ func (m *customKM) Primitive(serializedKey []byte) (any, error) {
 	return m.prim(int(serializedKey[1]))
 }
 func (m *customKM) NewKey([]byte) (proto.Message, error) { return nil, errors.New("not supported") }
-func (m *customKM) DoesSupport(u string) bool           { return u == m.url }
-func (m *customKM) TypeURL() string                     { return m.url }
+func (m *customKM) DoesSupport(u string) bool            { return u == m.url }
+func (m *customKM) TypeURL() string                      { return m.url }
 func (m *customKM) NewKeyData([]byte) (*tinkpb.KeyData, error) {
 	return nil, errors.New("not supported")
 }
